@@ -369,6 +369,7 @@ func isErrorType(t types.Type) bool {
 
 // appendSite describes one `x = append(base, elem)` with a single appended element.
 type appendSite struct {
+	At    ssa.Instruction // the append call, or the element store of an index-assigned list
 	Call  *ssa.Call
 	Base  ssa.Value
 	Elem  ssa.Value  // the value stored into the varargs array (nil when spread from a slice)
@@ -391,7 +392,7 @@ func appendSites(fn *ssa.Function, typeSuffix string) []appendSite {
 			if typeSuffix != "" && !strings.HasSuffix(c.Type().String(), typeSuffix) {
 				continue
 			}
-			site := appendSite{Call: c, Base: c.Call.Args[0]}
+			site := appendSite{At: c, Call: c, Base: c.Call.Args[0]}
 			if sl, ok := c.Call.Args[1].(*ssa.Slice); ok {
 				if arr, ok := sl.X.(*ssa.Alloc); ok && arr.Referrers() != nil {
 					for _, r := range *arr.Referrers() {
@@ -416,6 +417,64 @@ func appendSites(fn *ssa.Function, typeSuffix string) []appendSite {
 		}
 	}
 	return out
+}
+
+// elemSitesT: the places where an element of a list of type …typeSuffix is produced: append calls, and
+// stores `list[i] = elem` into a list this function made with make (the pre-sized form of the same
+// loop). Call is nil for the indexed form; At is always set.
+func elemSitesT(fn *ssa.Function, elemSuffix string) []appendSite {
+	var out []appendSite
+	for _, s := range appendSites(fn, "") {
+		if strings.HasSuffix(elemTypeString(s.Call.Type()), elemSuffix) {
+			out = append(out, s)
+		}
+	}
+	for _, b := range fn.Blocks {
+		for _, in := range b.Instrs {
+			st, ok := in.(*ssa.Store)
+			if !ok {
+				continue
+			}
+			ia, ok := st.Addr.(*ssa.IndexAddr)
+			if !ok || !strings.HasSuffix(elemTypeString(ia.X.Type()), elemSuffix) {
+				continue
+			}
+			made := false
+			for _, o := range origins(ia.X) {
+				if _, ok := strip(o).(*ssa.MakeSlice); ok {
+					made = true
+				}
+			}
+			if !made {
+				continue
+			}
+			site := appendSite{At: st, Base: ia.X, Elem: st.Val}
+			if u, ok := st.Val.(*ssa.UnOp); ok && u.Op == token.MUL {
+				if a, ok := u.X.(*ssa.Alloc); ok {
+					site.Alloc = a
+				}
+			}
+			out = append(out, site)
+		}
+	}
+	return out
+}
+
+// isElemProducer: in is an append of, or an indexed store into, a list of …elemSuffix elements.
+func isElemProducer(in ssa.Instruction, elemSuffix string) bool {
+	if isAppendOf(in, elemSuffix) {
+		return true
+	}
+	if st, ok := in.(*ssa.Store); ok {
+		if ia, ok := st.Addr.(*ssa.IndexAddr); ok && strings.HasSuffix(elemTypeString(ia.X.Type()), elemSuffix) {
+			for _, o := range origins(ia.X) {
+				if _, ok := strip(o).(*ssa.MakeSlice); ok {
+					return true
+				}
+			}
+		}
+	}
+	return false
 }
 
 // fieldStores returns, for a local struct Alloc, the values stored into each of its fields.
